@@ -14,6 +14,8 @@
 //!   confirm sid G           GtBank::confirm_unchecked                 -> ok|err | digest
 //!   claim sid g             complete_gt_exchange with exchange.amount = g
 //!                                                       -> ok n [a0,a1,…] | digest   (n = #transfers)
+//!   claimx sid g            complete_gt_exchange of an exchange of THIS vault against the bank of ANOTHER vault of
+//!                           the same treasury (same tokens, confirmed alike): must be rejected -> err | digest
 //!   setf sid gt|buyback f   Config::set_gt_factor / set_buyback_factor -> ok prev | gt buyback
 use anchor_lang::prelude::*;
 use anchor_lang::solana_program::instruction::Instruction;
@@ -108,6 +110,8 @@ struct Sid {
     atas: Vec<Pubkey>,
     orig: Option<(Vec<u64>, u64)>, // balances and total at confirmation (oracle only)
     paid: Vec<BigUint>,
+    /// a second bank of the same treasury vault config, bound to ANOTHER GT exchange vault: (bank, vault key, bank key, atas)
+    other: (GtBank, Pubkey, Pubkey, Vec<Pubkey>),
 }
 
 fn balances(s: &Sid) -> Vec<u64> { (0..s.n).map(|i| s.bank.get_balance(&mint_key(i)).unwrap_or(0)).collect() }
@@ -133,8 +137,13 @@ fn mint_account() -> Vec<u8> {
 }
 
 /// complete_gt_exchange through the real entrypoint; returns per-token transferred amounts.
-fn claim(s: &mut Sid, g: u64) -> std::result::Result<(usize, Vec<u64>), ()> {
-    let [store_k, config_k, tvc_k, vault_k, bank_k, owner_k] = s.keys;
+fn claim(s: &mut Sid, g: u64) -> std::result::Result<(usize, Vec<u64>), ()> { claim_with(s, g, false) }
+
+/// `cross`: the exchange and the GT exchange vault account are this session's vault A, the bank account (and its token
+/// vaults) are those of the OTHER vault B.
+fn claim_with(s: &mut Sid, g: u64, cross: bool) -> std::result::Result<(usize, Vec<u64>), ()> {
+    let [store_k, config_k, tvc_k, vault_k, own_bank_k, owner_k] = s.keys;
+    let (bank_k, bank_state, atas) = if cross { (s.other.2, s.other.0, s.other.3.clone()) } else { (own_bank_k, s.bank, s.atas.clone()) };
     let tre = gmsol_treasury::ID;
     let sto = gmsol_store::ID;
     let sys = anchor_lang::system_program::ID;
@@ -154,14 +163,14 @@ fn claim(s: &mut Sid, g: u64) -> std::result::Result<(usize, Vec<u64>), ()> {
         Acc::zc(config_k, tre, &s.cfg),
         Acc::zc(tvc_k, tre, &tvc),
         Acc::new(vault_k, spl_token::ID, &[]).writable(),
-        Acc::zc(bank_k, tre, &s.bank).writable(),
+        Acc::zc(bank_k, tre, &bank_state).writable(),
         exacc,
         Acc::new(sto, sys, &[]).exec(),
         Acc::new(spl_token::ID, sys, &[]).exec(),
         Acc::new(anchor_spl::token_2022::ID, sys, &[]).exec(),
     ];
     for i in 0..s.n { accs.push(Acc::new(mint_key(i), spl_token::ID, &mint_account())); }
-    for i in 0..s.n { accs.push(Acc::new(s.atas[i], spl_token::ID, &token_account(&mint_key(i), &bank_k)).writable()); }
+    for i in 0..s.n { accs.push(Acc::new(atas[i], spl_token::ID, &token_account(&mint_key(i), &bank_k)).writable()); }
     for i in 0..s.n { accs.push(Acc::new(Pubkey::new_from_array([100 + i as u8; 32]), spl_token::ID, &token_account(&mint_key(i), &owner_k)).writable()); }
     CPIS.lock().unwrap().clear();
     let data = gmsol_treasury::instruction::CompleteGtExchange {}.data();
@@ -169,7 +178,8 @@ fn claim(s: &mut Sid, g: u64) -> std::result::Result<(usize, Vec<u64>), ()> {
     let cpis: Vec<Instruction> = CPIS.lock().unwrap().drain(..).collect();
     r?;
     // transaction succeeded: the bank account bytes are the new state
-    s.bank = *bytemuck::from_bytes::<GtBank>(&accs[5].data()[8..]);
+    let new_bank = *bytemuck::from_bytes::<GtBank>(&accs[5].data()[8..]);
+    if cross { s.other.0 = new_bank; } else { s.bank = new_bank; }
     let mut amts = vec![0u64; s.n];
     let mut nx = 0;
     for ix in cpis {
@@ -177,7 +187,7 @@ fn claim(s: &mut Sid, g: u64) -> std::result::Result<(usize, Vec<u64>), ()> {
             // TransferChecked: tag 12, amount u64 LE, decimals; accounts = [source, mint, dest, authority]
             assert_eq!(ix.data[0], 12);
             let amount = u64::from_le_bytes(ix.data[1..9].try_into().unwrap());
-            let i = s.atas.iter().position(|a| *a == ix.accounts[0].pubkey).expect("transfer from an unknown vault");
+            let i = atas.iter().position(|a| *a == ix.accounts[0].pubkey).expect("transfer from an unknown vault");
             assert_eq!(ix.accounts[1].pubkey, mint_key(i));
             assert_eq!(ix.accounts[3].pubkey, bank_k);
             amts[i] = amts[i].checked_add(amount).unwrap();
@@ -210,7 +220,12 @@ fn exec(w: &mut BTreeMap<String, Sid>, req: &str, out: &mut Out) -> (String, boo
             hook::gt_bank_try_init(&mut bank, 255, keys[2], keys[3]).unwrap();
             for (i, b) in bs.iter().enumerate() { hook::gt_bank_record_transferred_in(&mut bank, &mint_key(i), *b).unwrap(); }
             let atas = (0..n).map(|i| anchor_spl::associated_token::get_associated_token_address_with_program_id(&keys[4], &mint_key(i), &spl_token::ID)).collect();
-            let s = Sid { bank, cfg, n, keys, atas, orig: None, paid: vec![BigUint::from(0u8); n] };
+            let (vault2, bank2_k) = (k(7), k(8));
+            let mut bank2: GtBank = Zeroable::zeroed();
+            hook::gt_bank_try_init(&mut bank2, 255, keys[2], vault2).unwrap();
+            for (i, b) in bs.iter().enumerate() { hook::gt_bank_record_transferred_in(&mut bank2, &mint_key(i), *b).unwrap(); }
+            let atas2 = (0..n).map(|i| anchor_spl::associated_token::get_associated_token_address_with_program_id(&bank2_k, &mint_key(i), &spl_token::ID)).collect();
+            let s = Sid { bank, cfg, n, keys, atas, orig: None, paid: vec![BigUint::from(0u8); n], other: (bank2, vault2, bank2_k, atas2) };
             let d = digest(&s);
             w.insert(sid, s);
             (format!("ok | {d}"), false)
@@ -237,7 +252,8 @@ fn exec(w: &mut BTreeMap<String, Sid>, req: &str, out: &mut Out) -> (String, boo
             if t.len() != 4 { return bad(); }
             let snapshot = s.bank;
             let r = { let _q = Quiet::new(); hook::gt_bank_confirm_unchecked(&mut s.bank, g) };
-            if r.is_err() { s.bank = snapshot; } else { s.orig = Some((balances(s), g)); s.paid = vec![BigUint::from(0u8); s.n]; }
+            if r.is_err() { s.bank = snapshot; } else { s.orig = Some((balances(s), g)); s.paid = vec![BigUint::from(0u8); s.n];
+                let snap2 = s.other.0; let r2 = { let _q = Quiet::new(); hook::gt_bank_confirm_unchecked(&mut s.other.0, g) }; if r2.is_err() { s.other.0 = snap2; } }
             (format!("{} | {}", if r.is_ok() { "ok" } else { "err" }, digest(s)), r.is_ok())
         }
         "claim" => {
@@ -274,6 +290,20 @@ fn exec(w: &mut BTreeMap<String, Sid>, req: &str, out: &mut Out) -> (String, boo
                     (format!("ok {nx} [{}] | {}", a.join(","), digest(s)), g > 0)
                 }
             }
+        }
+        "claimx" => {
+            // account binding: exchange + exchange vault of THIS vault, bank (and token vaults) of the OTHER vault
+            let (Some(s), Some(g)) = (w.get_mut(&sid), parse::<u64>(&t, 3)) else { return bad() };
+            if t.len() != 4 { return bad(); }
+            let other0 = s.other.0;
+            let own0 = s.bank;
+            let r = claim_with(s, g, true);
+            if let Ok((_, amts)) = &r {
+                out.oracle_fail(&format!("an exchange of one GT exchange vault was completed against the bank of ANOTHER vault (paid {:?} from it, its remaining GT {} -> {})", amts,
+                    hook::gt_bank_remaining_confirmed_gt_amount(&other0), hook::gt_bank_remaining_confirmed_gt_amount(&s.other.0)), req);
+            }
+            if bytemuck::bytes_of(&own0) != bytemuck::bytes_of(&s.bank) { out.oracle_fail("a cross-vault completion changed the own bank", req); }
+            (format!("{} | {}", if r.is_ok() { "ok" } else { "err" }, digest(s)), false)
         }
         "setf" => {
             let (Some(s), Some(f)) = (w.get_mut(&sid), parse::<u128>(&t, 4)) else { return bad() };
@@ -328,6 +358,7 @@ fn gen_history(r: &mut Rng, sid: usize, reqs: &mut Vec<String>) {
             4 => rem / 2,
             _ => if rem == 0 { 0 } else { r.next() % rem + 1 },
         };
+        if r.chance(1, 5) { reqs.push(format!("gtb claimx {sid} {}", if r.chance(1, 4) { r.below(3) } else if rem == 0 { 0 } else { r.next() % rem + 1 })); }
         reqs.push(format!("gtb claim {sid} {g}"));
         if g <= rem { rem -= g; }
         if rem == 0 && r.chance(2, 3) { break; }
